@@ -6,6 +6,7 @@ import (
 	"fmt"
 	"log/slog"
 	"runtime/debug"
+	"sync"
 	"time"
 
 	"github.com/DataDog/gostackparse"
@@ -35,6 +36,12 @@ type process struct {
 	mbuffer  []Envelope
 	// set by cleanup; a cleaned up process must not open its inbox again.
 	stopped bool
+
+	// Everybody who asked for this process to stop is told when it has:
+	// only one poison pill is ever acted on, the others are never looked at.
+	stopMu      sync.Mutex
+	finished    bool
+	stopWaiters []context.CancelFunc
 }
 
 func newProcess(e *Engine, opts Opts) *process {
@@ -201,12 +208,38 @@ func (p *process) tryRestart(v any) {
 	p.Start()
 }
 
+// onStopped registers fn to be called once the process has stopped and is
+// unregistered; it is called at once if that has happened already.
+func (p *process) onStopped(fn context.CancelFunc) {
+	p.stopMu.Lock()
+	if p.finished {
+		p.stopMu.Unlock()
+		fn()
+		return
+	}
+	p.stopWaiters = append(p.stopWaiters, fn)
+	p.stopMu.Unlock()
+}
+
+// stoppedNow releases everybody who is waiting for this process to stop.
+func (p *process) stoppedNow() {
+	p.stopMu.Lock()
+	p.finished = true
+	waiters := p.stopWaiters
+	p.stopWaiters = nil
+	p.stopMu.Unlock()
+	for _, fn := range waiters {
+		fn()
+	}
+}
+
 func (p *process) cleanup(cancel context.CancelFunc) {
 	// cancel is nil when the process is cleaned up without a poison pill
 	// (restart budget exhausted, Shutdown).
 	if cancel != nil {
 		defer cancel()
 	}
+	defer p.stoppedNow()
 
 	if p.context.parentCtx != nil {
 		p.context.parentCtx.children.Delete(p.pid.ID)
